@@ -76,8 +76,12 @@ pub fn limit_size<T: PbMessage + Clone>(entries: &mut Vec<T>, max: Option<u64>) 
 /// Check whether the entry is continuous to the message.
 /// i.e msg's next entry index should be equal to the index of the first entry in `ents`
 pub fn is_continuous_ents(msg: &Message, ents: &[Entry]) -> bool {
-    if !msg.entries.is_empty() && !ents.is_empty() {
-        let expected_next_idx = msg.entries.last().unwrap().index + 1;
+    if !ents.is_empty() {
+        // A message without entries is anchored at `msg.index` alone.
+        let expected_next_idx = match msg.entries.last() {
+            Some(e) => e.index + 1,
+            None => msg.index + 1,
+        };
         return expected_next_idx == ents.first().unwrap().index;
     }
     true
